@@ -141,6 +141,19 @@ fn gen(ctx: &GenCtx, i: u64, prop: &str) -> Option<Run> {
     };
     let b = rb.builder_id();
     rb.push(Op::NewBuilder { b, proto, layer: Layer::Batteries, now_ns: Ns(created), hash_seed: r.next() });
+    // the custom keys of this run: usually short, sometimes long, multi-byte, or shaped like JSON syntax
+    let key_a: String = match r.below(10) {
+        0 => "k".repeat(70),
+        1 => format!("{}é{}", "k".repeat(63), "z".repeat(10)),
+        2 => "中".repeat(30),
+        3 => "x\":0,\"exp\":\"2999-01-01T00:00:00+00:00\",\"y".to_string(),
+        4 => "a\",\"exp\":null,\"b".to_string(),
+        5 => "exp\u{0}".to_string(),
+        6 => " exp".to_string(),
+        _ => "a".to_string(),
+    };
+    let key_b: String = if r.chance(1, 5) { format!("{}😀{}", "b".repeat(62), "b".repeat(8)) } else { "b".to_string() };
+    let bare = r.chance(1, 6);
     let mut footer: Option<String> = None;
     let mut assertion: Option<String> = None;
     let mut seq = seq;
@@ -173,8 +186,11 @@ fn gen(ctx: &GenCtx, i: u64, prop: &str) -> Option<Run> {
             Sym::Sub => rb.push(set(ClaimSpec::Sub(format!("v{}", n)))),
             Sym::Aud => rb.push(set(ClaimSpec::Aud(format!("v{}", n)))),
             Sym::Jti => rb.push(set(ClaimSpec::Jti(format!("v{}", n)))),
-            Sym::CustomA => rb.push(set(ClaimSpec::Custom { key: "a".into(), value: if r.chance(1, 2) { json!(n) } else { gen_json(&mut r, 2) } })),
-            Sym::CustomB => rb.push(set(ClaimSpec::Custom { key: "b".into(), value: json!(format!("b{}", n)) })),
+            Sym::CustomA => {
+                let value = if r.chance(1, 2) { json!(n) } else { gen_json(&mut r, 2) };
+                rb.push(set(if bare { ClaimSpec::Bare { key: key_a.clone(), value: if value.is_object() { json!(n) } else { value } } } else { ClaimSpec::Custom { key: key_a.clone(), value } }));
+            }
+            Sym::CustomB => rb.push(set(if bare { ClaimSpec::Bare { key: key_b.clone(), value: json!([format!("b{}", n)]) } } else { ClaimSpec::Custom { key: key_b.clone(), value: json!(format!("b{}", n)) } })),
             Sym::Ack => rb.push(Op::BuilderOp { b, op: BOp::Ack }),
             Sym::Footer => {
                 let f = if r.chance(1, 5) { String::new() } else { format!("f{}", n) };
